@@ -283,6 +283,13 @@ pub fn next_solution<'a>(sn: Rc<RefCell<SolutionNode<'a>>>)
             sn_ref.child = None;
             loop {
 
+                // If the body of the previous rule executed a cut (!), this
+                // node's no_backtracking flag is now set, and no other rule
+                // may be tried. (set_no_backtracking() writes the flag through
+                // a raw pointer, so it is read the same way.)
+                let cut = unsafe { (*sn.as_ptr()).no_backtracking };
+                if cut { return None; }
+
                 if sn_ref.rule_index >= sn_ref.number_facts_rules { return None; }
 
                 // The fallback_id saves the logic variable ID (LOGIC_VAR_ID),
